@@ -4,6 +4,8 @@ import (
 	"fmt"
 
 	"github.com/free5gc/ike/security"
+
+	"ikesim/ref"
 )
 
 // ---------------------------------------------------------------------------
@@ -13,7 +15,51 @@ import (
 // operation"; only differences from the twin are flagged.
 // ---------------------------------------------------------------------------
 
+// opRefSendMalformed: a holder of the keys (the reference peer) emits a datagram whose checksum is
+// valid but whose Encrypted payload is malformed: impossible pad length, IV only, misaligned or
+// shorter than an IV. It must be refused - and must leave the receiving object as usable as before.
+func opRefSendMalformed(w *World, s *Step) (string, string) {
+	sa := w.sa(s.SA)
+	if sa == nil {
+		w.stats.inc("noop_missing_sa")
+		return "nosa", "nosa"
+	}
+	r := NewRng(s.SpiI ^ 0xbad)
+	enc, ik := dirKeys(sa, s.From)
+	ig := sa.Suite.refInteg()
+	var body []byte
+	switch s.Src {
+	case "badpad":
+		pt := r.Bytes(16 * r.Range(1, 3))
+		pt[len(pt)-1] = byte(len(pt) + r.Intn(255-len(pt)+1))
+		iv := r.Bytes(16)
+		ct, err := ref.CBCEncrypt(enc, iv, pt)
+		if err != nil {
+			return "referr", "referr"
+		}
+		body = append(iv, ct...)
+	case "ivonly":
+		body = r.Bytes(16)
+	case "misaligned":
+		body = r.Bytes(16 + 16*r.Intn(2) + r.Range(1, 15))
+	case "shortbody":
+		body = r.Bytes(r.Intn(16))
+	default:
+		return "badkind", "badkind"
+	}
+	skLen := 4 + len(body) + ig.ICVLen
+	h := ref.Header{SPIi: r.U64(), SPIr: r.U64(), Major: 2, Exchange: 37, Flags: 8, MessageID: r.U32()}
+	d := h.Bytes(46, 28+skLen)
+	d = append(d, Pick[uint8](r, 0, 40, 41), 0, byte(skLen>>8), byte(skLen))
+	d = append(d, body...)
+	d = append(d, ig.ICV(ik, d)...)
+	w.dgrams[s.Dgram] = &Dgram{SA: s.SA, From: s.From, Bytes: d, Spec: &MsgSpec{}, Authentic: true}
+	w.stats.inc("fault_authentic_but_malformed_" + s.Src)
+	return "ok:" + s.Src, s.Src
+}
+
 func init() {
+	ops["ref_send_malformed"] = opRefSendMalformed
 	sendHooks["C17"] = c17Send
 	deliverHooks["C17"] = c17Deliver
 	finals["C17"] = c17Epilogue
@@ -163,7 +209,9 @@ func c17Deliver(c *deliverCtx) {
 	}
 	tm, tres := unprotect(rxBuffer(c.wire, rx.Spare), twinKey, c.toRole, rx.PreHdr)
 	kind := "genuine"
-	if c.faulty {
+	if c.d.Authentic {
+		kind = "authentic_malformed"
+	} else if c.faulty {
 		kind = s.Fault.Kind
 	} else if c.toRole == c.d.From {
 		kind = "reflected"
@@ -346,7 +394,13 @@ func genC17(r *Rng, idx int, tier string) *Scenario {
 			}
 			k := r.Intn(len(sent))
 			st := Step{Op: "deliver", Dgram: sent[k], Rx: genRx(r), Obj: Pick(r, "long", "long", "peer")}
-			switch r.Intn(8) {
+			switch r.Intn(10) {
+			case 8, 9: // authentic but malformed: only a key holder can make it
+				id := next
+				next++
+				from := Pick(r, "I", "R")
+				sc.Steps = append(sc.Steps, Step{Op: "ref_send_malformed", SA: 0, Dgram: id, From: from, Src: Pick(r, "badpad", "badpad", "ivonly", "misaligned", "shortbody"), SpiI: r.U64()})
+				st = Step{Op: "deliver", Dgram: id, Rx: genRx(r), Obj: Pick(r, "long", "long", "peer")}
 			case 0, 1:
 				st.Fault = &Fault{Kind: "bitflip", Byte: r.Intn(140), Bit: r.Intn(8)}
 			case 2:
